@@ -199,12 +199,21 @@ def main():
                     kres['obs'] = [Obligation('kani-byte-parsers', 'inconclusive', repr(e)[-600:])]
             kthread = threading.Thread(target=kpart)
             kthread.start()      # the three CBMC processes run beside the Engine M pools below
+        # ---------------- all Engine M jobs share ONE pool (longest jobs first) so that the cores never wait for a part to finish
+        import tokens
+        mir = mir_dump(src, 'dev')
+        pool = Pool(NCPU)
+        blens = list(range(0, 13 if a.tier == 'quick' else 21))
+        rl = list(range(0, (4 if a.tier == 'quick' else 7) + 1))
+        rjobs = [(src, L, mir, k, n) for L, k, n in tokens.split_jobs(rl, heavy_from=5, parts=7)]
+        lens = list(range(0, Lmax + 1))
+        a_tok = pool.map_async(token_worker, [(src, L, mir, k, n) for L, k, n in tokens.split_jobs(lens)], chunksize=1) if (not a.only or 'tokens' in a.only) else None
+        a_rng = pool.map_async(range_worker, rjobs, chunksize=1) if (not a.only or 'ranges' in a.only) else None
+        a_byt = pool.map_async(byte_parser_worker, [(src, L, mir) for L in reversed(blens)], chunksize=1) if (not a.only or 'bytes' in a.only) else None
+        pool.close()
         # ---------------- M part: the byte parsers on longer strings (error paths keep the rejected text)
         if not a.only or 'bytes' in a.only:
-            mir = mir_dump(src, 'dev')
-            blens = list(range(0, 13 if a.tier == 'quick' else 21))
-            with Pool(min(NCPU, len(blens))) as pool:
-                bres = pool.map(byte_parser_worker, [(src, L, mir) for L in reversed(blens)], chunksize=1)
+            bres = a_byt.get()
             berr = [d for d in bres if d['error']]
             bp = [(d['L'], p) for d in bres for p in d['panics']]
             bq = sum(d.get('queries', 0) for d in bres)
@@ -224,12 +233,7 @@ def main():
                                       extra=dict(per_length_bytes=[{k: d.get(k) for k in ('L', 'paths', 'wall')} for d in bres])))
         # ---------------- M part: whole range strings (commas / spaces symbolic) and the consumers of the parsed range
         if not a.only or 'ranges' in a.only:
-            import tokens
-            mir = mir_dump(src, 'dev')
-            rl = list(range(0, (5 if a.tier == 'quick' else 7) + 1))
-            rjobs = [(src, L, mir, k, n) for L, k, n in tokens.split_jobs(rl, heavy_from=5, parts=7)]
-            with Pool(NCPU) as pool:
-                rres = pool.map(range_worker, rjobs, chunksize=1)
+            rres = a_rng.get()
             rerr = [d for d in rres if d['error']]
             rp = [(d['L'], p) for d in rres for p in d['panics']]
             rq = sum(d.get('queries', 0) for d in rres)
@@ -250,10 +254,7 @@ def main():
                                       queries=rq, extra=dict(per_length_ranges=[{k: d.get(k) for k in ('L', 'paths', 'ranges', 'wall')} for d in rres])))
         # ---------------- M part: tokens
         if not a.only or 'tokens' in a.only:
-            lens = list(range(0, Lmax + 1))
-            mir = mir_dump(src, 'dev')
-            with Pool(NCPU) as pool:
-                results = pool.map(token_worker, [(src, L, mir, k, n) for L, k, n in tokens.split_jobs(lens)], chunksize=1)
+            results = a_tok.get()
             results.sort(key=lambda d: d['L'])
             tot_paths = sum(d.get('paths', 0) for d in results)
             errs = [d for d in results if d['error']]
